@@ -33,6 +33,7 @@ ROWS = [
  (['C36'], 'locate.last-column-after-full-line', F, '7fd0d51c', 'PRINT STRING$(80,"x");:LOCATE 5,80 left CSRLIN=6, POS=1'),
  (['C36', 'C01'], 'modechange.keybar-cursor-beyond-new-width.escaped.IndexError@buffers.py:get_charwidth', F, '9fc6683d', 'KEY ON: LOCATE 1,50: WIDTH 40 escaped as IndexError'),
  (['C36'], 'print.after-cursor-right', F, 'a7ddac9f', 'WIDTH 40: PRINT STRING$(40,"x");CHR$(28);: PRINT "abc"; reports POS=1 but writes from column 2 (overflow flag survives the wrap)'),
+ (['C36'], 'window.outside-changed', F, '670b1bda', 'LOCATE 25,61: VIEW PRINT 24 TO 24: PRINT CHR$(13)+"X"; wrote X on row 25 (bottom-row flag survived VIEW PRINT); found by the thorough tier'),
  (['C37'], 'clear.stale-ring16', F, '1579f054', 'POKE 1050,PEEK(1052) with keys waiting delivered the keys plus stale entries'),
  (['C37'], 'clear.keys-remain', F, '1579f054', 'POKE 1050,PEEK(1052) after >= 16 keystrokes discarded nothing'),
  (['C10', 'C01'], 'escaped.KeyError@strings.py:_retrieve.after-error', F, '8b0d6f2c', 'A$="qq"+CHR$(300) then PRINT FRE(""): KeyError (operand stack not released after an error)'),
